@@ -23,7 +23,7 @@ func VerifClearNonces(c *Client) { c.clearNonces() }
 // popNonce only fetches when the pool is empty) and returns them in pop order.
 func VerifDrainNonces(c *Client) []string {
 	var out []string
-	for {
+	for len(out) < 4*maxNonces { // a pool that does not shrink must not spin forever
 		c.noncesMu.Lock()
 		n := len(c.nonces)
 		c.noncesMu.Unlock()
@@ -36,6 +36,7 @@ func VerifDrainNonces(c *Client) []string {
 		}
 		out = append(out, v)
 	}
+	return out
 }
 
 // VerifNonceCount reports the size of the nonce pool.
